@@ -30,6 +30,8 @@ type Sub struct {
 	Exhaustive func(tier string) bool
 	// BudgetSec is the CPU budget of one case (seconds of process CPU time); 0 = 20.
 	BudgetSec int
+	// BudgetSecThorough, if not 0, replaces BudgetSec in the thorough tier (whose cases may be larger).
+	BudgetSecThorough int
 	// Serial sub-checks run all their cases in shard 0 (they use all cores themselves).
 	Serial bool
 }
@@ -377,6 +379,9 @@ func RunWorker(a WorkerArgs) error {
 		c.cur = st
 		n := sub.Count(a.Tier)
 		budget := sub.BudgetSec
+		if a.Tier == "thorough" && sub.BudgetSecThorough != 0 {
+			budget = sub.BudgetSecThorough
+		}
 		if budget == 0 {
 			budget = 20
 		}
@@ -474,6 +479,9 @@ func writeMeta(dir string, m *Monitor, tier string) {
 			ex = s.Exhaustive(tier)
 		}
 		b := s.BudgetSec
+		if tier == "thorough" && s.BudgetSecThorough != 0 {
+			b = s.BudgetSecThorough
+		}
 		if b == 0 {
 			b = 20
 		}
